@@ -35,7 +35,7 @@ ASSUMPTIONS = [
     "idle-call spacing is judged exactly (1e-9 relative slack for float arithmetic): two idle calls are at least rest_poll_interval of simulated time apart",
 ]
 NSHARDS = {"quick": 16, "thorough": 16}
-N = {"quick": 7, "thorough": 120}
+N = {"quick": 7, "thorough": 700}
 REQUIRE = {"requests": 2000, "requests_with_results": 400, "requests_idle": 100, "pipelines_reported_complete": 150,
            "paired_runs_compared": 60, "assignments_decoded": 500, "suspensions_decoded": 10, "paired_serialisations": 200,
            "pool_snapshots_compared": 2000}
